@@ -18,7 +18,7 @@ RULE = ("protocol states satisfying the invariant, systematically: Agglayer stat
         "contradiction cases (local-only, Agglayer lower, different id at equal height) derived from every consistent state; "
         "random unstructured Agglayer views / local tables (every branch of process()); storage faults on each statement class "
         "{history insert, delete, insert, none} x table size 0..3 x target height x history on/off; metadata encode/decode at the "
-        "uint32/uint64 boundaries. A case is non-trivial when the recovery had something to decide (local or Agglayer side non-empty), "
+        "uint32/uint64 boundaries. The next certificate's (height, previous LER, first block, retry count) of every case is computed twice on the real code - by the hook that calls the three flow functions and through the public entry points GetCertificateBuildParamsInternal / VerifyBuildParams / BuildCertificate of a real base flow - and the two routes must agree. A case is non-trivial when the recovery had something to decide (local or Agglayer side non-empty), "
         "a fault case when the table was non-empty or a fault was armed, a metadata case always; distinct = distinct "
         "(kind, crash point, step, Agglayer class, height, metadata version, history, outcome, error kind, next-parameter class)")
 ASSUMPTIONS = [
